@@ -12,10 +12,11 @@ from .stmt import StmtMixin
 from .calls import CallMixin
 from .calls2 import Call2Mixin
 from .builtins_ import BuiltinMixin
+from .numeric import NumericMixin
 from . import world as world_mod
 
 
-class Interp(InterpBase, ExprMixin, StmtMixin, CallMixin, Call2Mixin, BuiltinMixin):
+class Interp(InterpBase, ExprMixin, StmtMixin, CallMixin, Call2Mixin, BuiltinMixin, NumericMixin):
 
   def __init__(self, world, explorer, registry, prop=''):
     super().__init__(world, explorer, registry, prop)
@@ -47,7 +48,7 @@ class FnResult:
 
 def verify_function(world, reg, c, prop, timeout_ms=20000, mutate=None):
   """Checks the real source of c.target against contract c. Returns FnResult."""
-  res = FnResult(c.target)
+  res = FnResult(c.key)
   t0 = time.time()
   preload(world, reg)
   try:
@@ -66,7 +67,7 @@ def verify_function(world, reg, c, prop, timeout_ms=20000, mutate=None):
     it = Interp(world, ex, reg, prop)
     meta['it'] = it
     it.verifying = world_qual(mod, cls, node)
-    it.cur_name = f'{prop}/{c.target}'
+    it.cur_name = f'{prop}/{c.key}'
     it.cur_contract_for_loops = c
     it.cur_fn_node = node
     it.module_stack.append(mod)
@@ -119,7 +120,7 @@ def verify_function(world, reg, c, prop, timeout_ms=20000, mutate=None):
     res.exits[outcome if outcome == 'return' else f'raise {val.cls}'] = res.exits.get(
         outcome if outcome == 'return' else f'raise {val.cls}', 0) + 1
     env2 = dict(env)
-    name = f'{prop}/{c.target}'
+    name = f'{prop}/{c.key}'
     if outcome == 'return':
       env2['result'] = val
       for exc, cond in c.raises.items():
